@@ -1,5 +1,6 @@
 from __future__ import annotations
 
+import re
 from copy import deepcopy
 from enum import Enum
 from typing import Optional
@@ -465,9 +466,10 @@ def get_kern_from_ekern(ekern_content: str) -> str:
 
         ```
     """
-    content = ekern_content
-    for header in HEADERS:  # '**ekern' -> '**kern', '**etext' -> '**text', ...
-        content = content.replace(f'**e{header[2:]}', header)
+    # '**ekern' -> '**kern', '**etext' -> '**text', ...: only where the extended header is a whole cell (free text may mention '**ekern')
+    extended_header_cell = re.compile(
+        r'(?<![^\t\n\r])\*\*e(' + '|'.join(sorted((re.escape(header[2:]) for header in HEADERS), key=len, reverse=True)) + r')(?![^\t\n\r])')
+    content = extended_header_cell.sub(lambda m: '**' + m.group(1), ekern_content)
     content = content.replace(TOKEN_SEPARATOR, "")
     content = content.replace(DECORATION_SEPARATOR, "")
 
